@@ -229,6 +229,12 @@ func (e *c11Env) c11RunK(in c11Input) (out c11Outcome) {
 		return
 	}
 	out.Detail = c11Bound(err.Error(), 600)
+	if tr := fmt.Sprintf("%+v", err); len(tr) > len(out.Detail) {
+		// tm2 errors keep the messages on a trace that Error() does not show
+		if i := strings.Index(tr, "Msg Traces:"); i >= 0 {
+			out.Detail = c11Bound(out.Detail+" | "+strings.TrimSpace(tr[i+len("Msg Traces:"):]), 700)
+		}
+	}
 	switch {
 	case goerrors.As(err, new(vm.TypeCheckError)):
 		out.Class, out.Reached = c11TypeCheck, "typecheck"
